@@ -106,6 +106,13 @@ def k_units(run, case):
     m = metrics.APE(metrics.PoseRelation.translation_part)
     m.unit = u
     m.error = e.copy()
+    # history before the conversion: statistics / results may have been queried already
+    primed = bool(rng.random() < .6)
+    if primed:
+        m.get_all_statistics() if rng.random() < .5 else m.get_statistic(
+            list(metrics.StatisticsType)[rng.integers(len(list(metrics.StatisticsType)))])
+        if rng.random() < .5:
+            m.get_result("r", "e")
     out = contracts.outcome_of(m.change_unit, v)
     F = {Unit.millimeters: Fraction(1, 1000), Unit.centimeters: Fraction(1, 100),
          Unit.meters: Fraction(1), Unit.kilometers: Fraction(1000)}
@@ -142,6 +149,30 @@ def k_units(run, case):
     run.check(m.unit is v, "unit updated", case, "unit is %s after converting to %s" % (m.unit, v),
               key="units:unit-not-updated")
     r = m.get_result("r", "e")
+    # the statistics must follow the converted values, whatever was queried before
+    st = rm.stats_definition(want)
+    mx = float(np.max(np.abs(want)))
+    for k in STAT_KEYS:
+        scale = mx * mx * len(want) if k == "sse" else mx
+        tolk = 1e-10 * scale + 1e-12 * abs(st[k]) + 1e-300
+        for src, g in (("get_statistic", m.get_statistic(metrics.StatisticsType[k])), ("get_result", r.stats.get(k))):
+            run.counters["statistics follow the converted values"] += 1
+            if g is None or not abs(float(g) - st[k]) <= tolk:
+                run.violation("units:stale-statistic-%s" % k, "after converting %s -> %s (statistics queried "
+                              "before: %s) %s(%s) = %r but the converted values give %r" %
+                              (u.value, v.value, primed, src, k, g, st[k]), case)
+                return
+    # a second conversion back must reproduce the original values up to rounding
+    if expect == "ok" and rng.random() < .5:
+        out2 = contracts.outcome_of(m.change_unit, u)
+        back = np.asarray(m.error, dtype=float)
+        run.check(out2[0] == "ok" and m.unit is u and bool(np.all(np.abs(back - e) <= 8 * np.spacing(np.abs(e)))),
+                  "converting back restores the values", case, "round trip %s -> %s -> %s changed the values" %
+                  (u.value, v.value, u.value), key="units:roundtrip")
+        g = m.get_statistic(metrics.StatisticsType.rmse)
+        w = rm.stats_definition(e)["rmse"]
+        run.check(abs(g - w) <= 1e-10 * float(np.max(e)) + 1e-12 * w, "statistics follow the values after a second conversion",
+                  case, "rmse %r after converting back, the values give %r" % (g, w), key="units:stale-statistic-rmse")
     run.check(("(%s)" % v.value) in r.info["label"] and v.value in r.info["title"],
               "title/label name the unit actually used", case,
               "after conversion label=%r title=%r" % (r.info["label"], r.info["title"]), key="units:label")
@@ -271,6 +302,7 @@ def main(run):
     run.need("statistic == definition", "order relations between the statistics",
              "rmse^2 == mean^2 + std^2", "forbidden conversion refused",
              "refused conversion leaves values and unit untouched", "values multiplied by the exact factor",
+             "statistics follow the converted values",
              "stored statistic == definition on stored values",
              "companion array has one entry per error value",
              "timestamps refer to the pose the value belongs to",
